@@ -368,8 +368,68 @@ func (m *Model) valid(sn any, v any, p Pos) Verdict {
 			m.Why = p.Path + ": no anyOf branch accepts"
 		}
 		join(best)
+		if res != Reject && m.dev("ANYOF_MERGED_FIELD_TYPES") {
+			// as built: after one branch accepted, the value is decoded into the struct merged from all branches, so the
+			// Go field type of every declared property applies even if the accepting branch does not declare it
+			if obj, ok := v.(map[string]any); ok {
+				props := map[string]propAt{}
+				m.declaredProps(s, p.File, props, 0)
+				for k, pa := range props {
+					val, present := obj[k]
+					if !present || val == nil {
+						continue
+					}
+					if !m.goTypeCompatible(pa.s, val, pa.file) {
+						m.fire("ANYOF_MERGED_FIELD_TYPES")
+						return m.reject(p, "as built: %q does not fit the merged struct field", k)
+					}
+				}
+			}
+		}
 	}
 	return res
+}
+
+// goTypeCompatible: would encoding/json store val into the Go field generated for schema sn (type only, no validators)?
+func (m *Model) goTypeCompatible(sn any, val any, file string) bool {
+	s, ok := sn.(map[string]any)
+	if !ok {
+		return true
+	}
+	if ref, ok := s["$ref"].(string); ok {
+		t, f, err := m.Resolve(ref, file)
+		if err != nil {
+			return true
+		}
+		return m.goTypeCompatible(t, val, f)
+	}
+	if _, ok := s["enum"]; ok {
+		return true
+	}
+	nn := nonNullTypes(typeList(s))
+	if len(nn) != 1 {
+		return true
+	}
+	k := jsonv.Kind(val)
+	switch nn[0] {
+	case "string":
+		if _, isFmt := s["format"]; isFmt {
+			return true
+		}
+		return k == "string"
+	case "integer":
+		r := rat(val)
+		return k == "number" && r != nil && r.IsInt()
+	case "number":
+		return k == "number"
+	case "boolean":
+		return k == "boolean"
+	case "array":
+		return k == "array"
+	case "object":
+		return k == "object"
+	}
+	return true
 }
 
 func hasComposite(s S) bool {
@@ -737,6 +797,11 @@ func isFormatString(s S, tl []string) bool {
 // asBuiltEarly holds the deviations that replace the whole evaluation of a node.
 func (m *Model) asBuiltEarly(s S, tl []string, hasEnum bool, v any, p Pos) (Verdict, bool) {
 	nn := nonNullTypes(tl)
+	// a definition (or root) that is an untyped allOf/anyOf with a $ref branch becomes interface{}
+	if m.dev("COMPOSITE_DEF_REF_IS_ANY") && p.Named && compositeWithRef(s, tl) {
+		m.fire("COMPOSITE_DEF_REF_IS_ANY")
+		return Accept, true
+	}
 	// a typed integer enum generated with --min-sized-ints compares a sized value with an int table: nothing matches
 	if m.dev("SIZED_INT_ENUM_REJECTS_ALL") && m.MinSized && hasEnum && len(nn) == 1 && nn[0] == "integer" && v != nil {
 		m.fire("SIZED_INT_ENUM_REJECTS_ALL")
@@ -803,4 +868,22 @@ func (m *Model) asBuiltEarly(s S, tl []string, hasEnum bool, v any, p Pos) (Verd
 		}
 	}
 	return Accept, false
+}
+
+func compositeWithRef(s S, tl []string) bool {
+	if len(tl) != 0 {
+		return false
+	}
+	for _, key := range []string{"allOf", "anyOf"} {
+		if bs, ok := s[key].([]any); ok {
+			for _, b := range bs {
+				if bm, ok := b.(map[string]any); ok {
+					if _, isRef := bm["$ref"]; isRef {
+						return true
+					}
+				}
+			}
+		}
+	}
+	return false
 }
